@@ -334,7 +334,10 @@ class Executor:
                 del st.store[Q]
         if fields is None:
             if place_root(P)[0] == 'local':
-                self.write(st, P, ('havoc', P, cid))
+                prev = st.store.get(P)
+                if prev is not None and prev[0] == 'havoc' and len(prev) > 3:
+                    prev = prev[3]          # keep the value before the first mutation only (bounded size)
+                self.write(st, P, ('havoc', P, cid, prev))
             elif P in st.store:
                 del st.store[P]
         st.havocs.append((P, cid, fields))
@@ -520,6 +523,12 @@ class Executor:
             return ('cast', 'Into', args[0], t['dest'].get('ty', ''))
         if d == 'core::num::NonZero::get' and len(args) == 1:
             return ('unop', 'NonZeroGet', args[0])
+        if res == '<core::result::Result as core::ops::Try>::branch' and len(args) == 1 and args[0][0] == 'agg' \
+                and args[0][2] == 'core::result::Result' and args[0][3] in ('Ok', 'Err') and len(args[0][5]) == 1:
+            # `?` on a Result whose variant is known on this path (the value returned by an inlined helper)
+            if args[0][3] == 'Ok':
+                return ('agg', 'adt', 'core::ops::ControlFlow', 'Continue', ('0',), (args[0][5][0],))
+            return ('agg', 'adt', 'core::ops::ControlFlow', 'Break', ('0',), (args[0],))
         if res == '<core::option::Option as core::ops::FromResidual>::from_residual':
             # `opt?` on the None edge: the function returns None
             return ('agg', 'adt', 'core::option::Option', 'None', (), ())
@@ -735,6 +744,13 @@ class Executor:
                             yield r
                     return
                 # opaque call
+                if res.startswith(('<&mut T as bytes::BufMut>::', '<&mut T as bytes::Buf>::', '<&T as bytes::Buf>::')) \
+                        and args and args[0][0] == 'ref':
+                    # forwarding impl on a reference to a buffer (`impl BufMut for &mut T`): the receiver `&r` with
+                    # r: &mut B designates the buffer r points to
+                    inner = self.read_place(body, fid, st, args[0][1])
+                    if inner[0] == 'ref':
+                        args = [('ref', inner[1], args[0][2])] + list(args[1:])
                 st.ncalls += 1
                 cid = st.ncalls
                 derefs = [self.read_place(body, fid, st, a[1]) if a[0] == 'ref' else None for a in args]
